@@ -737,17 +737,18 @@ class PendingAugAssign(PendingNode[AugAssign]):
         assign_value = expr_transf(self.nsp, self.node.value)
         if isinstance(self.node.target, Name):
             target = self.nsp.get_load_name(self.node.target.id)
-            return [
-                self._aug_assign_expr(
-                    target,
-                    self.node.op,
-                    assign_value,
-                    fallback=self.nsp.get_assign(
-                        self.node.target.id,
-                        BinOp(left=target, op=self.node.op, right=assign_value),
-                    ),
-                )
-            ]
+            aug_expr = self._aug_assign_expr(
+                target,
+                self.node.op,
+                assign_value,
+                fallback=self.nsp.get_assign(
+                    self.node.target.id,
+                    BinOp(left=target, op=self.node.op, right=assign_value),
+                ),
+            )
+            # the name is rebound to whatever the in-place method returns
+            aug_expr.body = self.nsp.get_assign(self.node.target.id, aug_expr.body)
+            return [aug_expr]
         elif isinstance(self.node.target, Subscript):
             # todo: could be optimized if slice is const
             tmp_slice_name = Name(id=ol_name(OL_AUGASSIGN_SLICE_TMP))
